@@ -164,11 +164,18 @@ class MacroProcessor:
         Macro call syntax: ${name} or ${name arg1 arg2 ...}
         """
         max_iterations = 100  # Prevent infinite loops
+        # A macro that calls itself more than once doubles the text on every pass; the pass
+        # limit alone would still allow 2**100 copies. Bound the size of the expansion as well.
+        max_size = max(1_000_000, 50 * len(content))
         iteration = 0
 
         while "${" in content and iteration < max_iterations:
             iteration += 1
             content = self._expand_once(content)
+            if len(content) > max_size:
+                raise ValueError(
+                    f"Macro expansion grew beyond {max_size} characters after {iteration} passes: a macro calls itself recursively"
+                )
 
         return content
 
